@@ -80,6 +80,8 @@ type Violation struct {
 type Run struct {
 	Env  Env
 	Prop string
+	// KindFilter, when set, drops violations whose kind it rejects (set before the first case).
+	KindFilter func(kind string) bool
 
 	mu         sync.Mutex
 	out        *os.File
@@ -247,6 +249,9 @@ func (c *C) Violated() bool {
 // Violation records a refuting observation.  sig must be built from
 // semantic features of the case, never from free text.
 func (c *C) Violation(kind, sig, detail string, replay any) {
+	if f := c.R.KindFilter; f != nil && !f(kind) {
+		return // a package run on behalf of another property reports only the kinds that property forbids
+	}
 	c.mu.Lock()
 	first := c.verdict != "violated"
 	c.verdict = "violated"
